@@ -1,5 +1,5 @@
 (* Case type and the two checks evaluated on harness cases for C03. *)
-From FH Require Import Model.Base Model.PackedBytes Gen.GenC05 Model.Cookie Model.HeaderWrite Model.RespWrite
+From FH Require Import Model.Base Model.PackedBytes Gen.GenC03 Gen.GenC05 Model.Cookie Model.HeaderWrite Model.RespWrite
   Spec.RespParse Spec.RespSpec.
 Open Scope Z_scope.
 
@@ -16,7 +16,7 @@ Inductive c03case :=
           (closed : bool)      (* the server closed the connection itself (it did not wait for another request) *)
           (nh : nhview).
 
-Definition bufioSize : Z := 4096.   (* defaultWriteBufferSize: what a failed Write can leave unflushed *)
+Definition bufioSize : Z := defaultWriteBufferSize.   (* what a failed Write can leave unflushed *)
 
 Fixpoint is_prefix (p s : bytes) : bool :=
   match p, s with
